@@ -126,6 +126,8 @@ def run(rep, tier):
     from . import C03, C13
     C03.audit_rules_c03(Renamed(rep, {'R03.13': 'R14.10'}), fb)
     C13.stable_restored(rep, fb, 'R14.11')
+    from . import C16
+    C16.nil_is_null(rep, facts.FactBase(['src/uscxml/plugins/datamodel/lua/LuaDataModel.cpp']), 'R14.12')
 
     for wq, rq in PAIRS:
         w, r = fb.fn(wq), fb.fn(rq)
